@@ -1055,6 +1055,9 @@ def corpus():
         Typedef('TdMap', M('i8', 'i8')), Typedef('MapList', L(M('string', 'i32'))),
         Const('K', 'i32', I(41)), Const('KS', 'string', Str('lbl')), Const('KM', R('M'), Id('M.B')),
         Const('KSET', S('i32'), LL(I(1), I(2))), Const('KSS', S('string'), LL(Str('a'))), Const('KEMPTY', S('i32'), LL()),
+        # F-14x / F-14y: set literals and `[]`-for-an-empty-map nested in const containers, lists nested in a const list
+        Const('KLS', L(S('i64')), LL(LL(I(1)), LL())), Const('KMS', M('i32', S('string')), LM((I(1), LL(Str('a'))))),
+        Const('KLL', L(L('i32')), LL(LL(I(1)), LL(I(2)))), Const('KLM', L(M('i32', 'i32')), LL(LL(), LM((I(1), I(2))))),
         Struct('Fix', [
             F(1, 'mm', M('i8', M('byte', 'string')), 'default', LM((I(1), LM((I(2), Str('x')))), (I(3), LM()))),
             F(2, 'lm', L(M('string', 'i32')), 'required', LL(LM((Str('a'), I(1))), LM())),
